@@ -4,7 +4,8 @@ M: TLC explores spec/Validation.tla (described -Construct-> -Slice-> -Fit-> -Com
    step raising or passing) for every enumerated case: all well-formed 1-4 dimensional descriptions
    with every valid operation, every single malformation at every position and every pair; invariants
    CatalogueConsistent, RejectedNotComputed, PrefixAccepted, AcceptedWhenWellFormed, DocumentedClass;
-   the mutation config (no hierarchy check, defect D10) must violate RejectedNotComputed.
+   the mutation configs (no hierarchy check = defect D10; fit returns before validating the method when
+   all parameters are fixed; 2-D check only made when the sample is drawn) must violate RejectedNotComputed.
 R: the same module emits every case.
 V: the driver builds the concrete description (carrier families rotate; thorough: all families for
    every single malformation), runs construct -> slice -> fit (300-row table) -> compute as far as it
@@ -24,6 +25,10 @@ FAMS = ["Weibull", "LogNormal", "Normal", "LogNormalNormFit", "ExponentiatedWeib
 PARAMS = {"Weibull": ["alpha", "beta", "gamma"], "LogNormal": ["mu", "sigma"], "Normal": ["mu", "sigma"],
           "LogNormalNormFit": ["mu_norm", "sigma_norm"], "ExponentiatedWeibull": ["alpha", "beta", "delta"],
           "GeneralizedGamma": ["m", "c", "lambda_"], "VonMises": ["kappa", "mu"]}
+ALLFIXED = {"Weibull": dict(f_alpha=1.2, f_beta=1.8, f_gamma=0.2), "LogNormal": dict(f_mu=0.2, f_sigma=0.4),
+            "Normal": dict(f_mu=1.3, f_sigma=0.5), "LogNormalNormFit": dict(f_mu_norm=1.4, f_sigma_norm=0.5),
+            "ExponentiatedWeibull": dict(f_alpha=1.2, f_beta=1.8, f_delta=1.1),
+            "GeneralizedGamma": dict(f_m=2.0, f_c=1.5, f_lambda_=1.0), "VonMises": dict(f_kappa=2.0, f_mu=1.3)}
 DOCUMENTED = (ValueError, TypeError, NotImplementedError, RuntimeError)   # NotImplementedError is a RuntimeError
 
 
@@ -75,6 +80,10 @@ def build(vc, case, carriers, variant):
             cls = dist_class(vc, fam)
             if dm["params"] == "FixedAndDependent":
                 desc["distribution"] = cls(**{"f_" + names[0]: 1.3})
+            elif case["ctx"]["fixed"] == i:           # context: nothing left to estimate
+                desc["distribution"] = cls(**ALLFIXED[fam])
+            elif not case["ctx"]["fitted"]:           # context: used unfitted, so give it usable parameters
+                desc["distribution"] = cls(**{k[2:]: v for k, v in ALLFIXED[fam].items()})
             else:
                 desc["distribution"] = cls()
         if dm["cond"] != ABSENT:
@@ -121,10 +130,16 @@ def fit_args(case, data):
     return d, fd
 
 
-def compute(vc, case, model):
+def compute(vc, case, model, data):
     n = case["n"]
     op = case["op"]
     kind, arg, pos = op["kind"], op["arg"], op["pos"]
+    ctx = case["ctx"]
+    skw = {}
+    if ctx["sample"] == "two":
+        skw["sample"] = data[:, :2].copy()
+    elif ctx["sample"] == "ndim":
+        skw["sample"] = data[:, :n].copy()
     if kind == "iform":
         target = {"Ok": model, "IformString": "model", "IformDist": vc.WeibullDistribution(), "IformNone": None}[arg]
         return vc.IFORMContour(target, 0.1, n_points=20)
@@ -143,6 +158,8 @@ def compute(vc, case, model):
             deltas = deltas[:-1]
         elif arg == "HdcDeltasLong":
             deltas = deltas + [0.2]
+        if ctx["opt"] == "omitted":
+            return vc.HighestDensityContour(model, 0.2, limits=limits)
         return vc.HighestDensityContour(model, 0.2, limits=limits, deltas=deltas)
     if kind in ("pdf", "cdf"):
         x = np.full((1, n), 1.5)
@@ -152,11 +169,11 @@ def compute(vc, case, model):
             x[0, pos] = np.inf
         return model.pdf(x) if kind == "pdf" else model.cdf(x)
     if kind == "ds":
-        return vc.DirectSamplingContour(model, 0.2, n=500, deg_step=30)
+        return vc.DirectSamplingContour(model, 0.2, n=500, deg_step=30, **skw)
     if kind == "and":
-        return vc.AndContour(model, 0.2, n=500, deg_step=30)
+        return vc.AndContour(model, 0.2, n=500, deg_step=30, **skw)
     if kind == "or":
-        return vc.OrContour(model, 0.2, n=500, deg_step=30)
+        return vc.OrContour(model, 0.2, n=500, deg_step=30, **skw)
     raise Machinery(f"unknown operation {kind}")
 
 
@@ -194,7 +211,9 @@ class Runner:
             # a fitted model is shared by the cases that differ only in the operation computed from it
             stages_ok = (all(d["dist"] == "Ok" and not d["extra"] and d["slicer"] == "Ok" for d in case["dims"])
                          and case["data"] == "Ok" and case["fit"]["kind"] in ("None", "Ok"))
-            key = (case["b"], tuple(carriers), case["fit"]["kind"],
+            fitted = case["ctx"]["fitted"]
+            stages_ok = stages_ok and case["ctx"]["fixed"] == -1
+            key = (case["b"], tuple(carriers), case["fit"]["kind"] if fitted else "unfitted",
                    tuple((d["cond"], d["params"]) for d in case["dims"]))
             model = self.cache.get(key) if stages_ok else None
             if model is None:
@@ -208,14 +227,15 @@ class Runner:
                 except Exception as e:  # noqa
                     return fail(2, e)
                 try:
-                    d, fd = fit_args(case, self.data)
-                    model.fit(d, fd)
+                    if fitted:
+                        d, fd = fit_args(case, self.data)
+                        model.fit(d, fd)
                 except Exception as e:  # noqa
                     return fail(3, e)
                 if stages_ok:
                     self.cache[key] = model
             try:
-                res = compute(vc, case, model)
+                res = compute(vc, case, model, self.data)
                 if res is None:
                     raise Machinery("operation returned None")
             except Machinery:
@@ -231,8 +251,10 @@ def mal_text(case):
 
 def case_key(case):
     conds = ",".join("-" if d["cond"] == ABSENT else str(d["cond"]) for d in case["dims"])
+    cx = case["ctx"]
     return (f"n={case['n']} base={case['b']} mal={mal_text(case)} "
-            f"op={case['op']['kind']}/{case['op']['arg']} fit={case['fit']['kind']} data={case['data']} cond=[{conds}]")
+            f"op={case['op']['kind']}/{case['op']['arg']} fit={case['fit']['kind']} data={case['data']} cond=[{conds}] "
+            f"ctx=allfixed:{cx['fixed']},sample:{cx['sample']},fitted:{int(cx['fitted'])},opt:{cx['opt']}")
 
 
 def judge(ctx, cases, recs, cfg):
@@ -250,7 +272,9 @@ def run(ctx):
     vc = import_virocon()
     ctx.rule = ("cases enumerated by TLC from spec/Validation.tla: 9 valid dependency structures of 1-4 dimensions x "
                 "{every valid operation and fit description (well-formed) ; every single malformation at every "
-                "position ; every pair of malformations of different fields (quick: 3 structures, thorough: all 9)}; "
+                "position, each additionally in the contexts that a validation must not depend on (all-fixed "
+                "carrier at the dimension of a malformed fit description, caller-supplied 2-/n-column sample for "
+                "the 2-D-only contours, unfitted model, optional HDC deltas omitted) ; every pair of malformations of different fields (quick: 3 structures, thorough: all 9)}; "
                 "carrier families rotate with the case index (thorough: every single malformation and every "
                 "well-formed case additionally with all 7 families). distinct = distinct abstract case; all "
                 "non-trivial (each runs at least the constructor)")
@@ -267,6 +291,8 @@ def run(ctx):
     ctx.model_check("Validation", ctx.pick("MC_Validation_quick.cfg", "MC_Validation_thorough.cfg"),
                     must_cover=("Step", "Compute"), workers=8)
     ctx.model_check("Validation", "MC_Validation_mut.cfg", expect_violation="RejectedNotComputed", workers=4)
+    ctx.model_check("Validation", "MC_Validation_mut_allfixed.cfg", expect_violation="RejectedNotComputed", workers=4)
+    ctx.model_check("Validation", "MC_Validation_mut_sample.cfg", expect_violation="RejectedNotComputed", workers=4)
     # ---- R
     cases = ctx.generate("Validation", ctx.pick("Gen_Validation_quick.cfg", "Gen_Validation_thorough.cfg"))
     cases.sort(key=case_key)
